@@ -52,6 +52,12 @@ UNAWARE = {
     "storage::tuple::TupleRef::<'a>::is_tuple_deleted": {},
     SNAP + "::is_tuple_visible": {},
 }
+# physical-presence probes: any method of the DML executor may use them (they decide how a row image is
+# written - insert vs revive - and never produce query results; SELECT paths live in runtime::ops and stay confined)
+DML_PROBES = {
+    "tree::bplustree::Btree::<Acc>::get_tuple_at_unchecked": "physical probe inside the DML executor",
+    "storage::tuple::Tuple::is_deleted": "physical probe inside the DML executor",
+}
 # closures that may call Tuple::from_slice_unchecked without a dominating parse_for_snapshot
 RAW_OK = {
     "schema::catalog::Catalog::vacuum_btree::{closure#0}": "vacuum inspects every physical tuple",
@@ -107,8 +113,9 @@ def check(cx):
         if not cs:
             cx.ok(r2, callee + ":no-callers", p.fn(callee).where(), "no production caller")
         for c in cs:
-            cx.verdict(c in allowed, r2, "%s<-%s" % (callee, c), p.fn(c).where(),
-                       "allowed: " + allowed.get(c, ""),
+            owner_ok = callee in DML_PROBES and ((p.fn(c).root or c).startswith("runtime::dml::DmlExecutor::"))
+            cx.verdict(c in allowed or owner_ok, r2, "%s<-%s" % (callee, c), p.fn(c).where(),
+                       "allowed: " + allowed.get(c, DML_PROBES.get(callee, "")),
                        "snapshot-unaware `%s` is now called from %s: rows are read without asking the "
                        "transaction's snapshot" % (callee.rsplit("::", 1)[-1], c))
     raw = "storage::tuple::Tuple::from_slice_unchecked"
